@@ -49,6 +49,33 @@ func testKey() (*rsa.PrivateKey, []byte) {
 	return rsaKey, rsaPEM
 }
 
+// testKeyN: one of three server key pairs (a server may change its key pair; a client may talk to
+// several servers in one process)
+var (
+	rsaNOnce sync.Once
+	rsaKeys  []*rsa.PrivateKey
+	rsaPEMs  [][]byte
+)
+
+func testKeyN(i int) (*rsa.PrivateKey, []byte) {
+	rsaNOnce.Do(func() {
+		k0, p0 := testKey()
+		rsaKeys, rsaPEMs = append(rsaKeys, k0), append(rsaPEMs, p0)
+		for j := 0; j < 2; j++ {
+			k, err := rsa.GenerateKey(rand.Reader, 1024)
+			if err != nil {
+				panic(err)
+			}
+			rsaKeys = append(rsaKeys, k)
+			rsaPEMs = append(rsaPEMs, pem.EncodeToMemory(&pem.Block{Type: "RSA PUBLIC KEY", Bytes: x509.MarshalPKCS1PublicKey(&k.PublicKey)}))
+		}
+	})
+	if i < 0 {
+		i = -i
+	}
+	return rsaKeys[i%len(rsaKeys)], rsaPEMs[i%len(rsaPEMs)]
+}
+
 type loginRun struct {
 	outcome  string
 	sent     int
